@@ -71,7 +71,8 @@ def triggers(case):
     for t in case['doc']:
         if t['subj']['k'] == 'const':
             for p in t.get('poms', []):
-                if all(g['k'] == 'const' for g in p.get('graphs', []) + t.get('sgraphs', [])) and all(m['k'] == 'const' for m in p['preds']):
+                gs = p.get('graphs', []) + t.get('sgraphs', [])
+                if (not gs or any(g['k'] == 'const' for g in gs)) and any(m['k'] == 'const' for m in p['preds']):
                     for o in p['objs']:
                         if o['m']['k'] == 'const' and any(o.get(k) and o[k]['k'] != 'const' for k in ('lang', 'dt')):
                             out.add('all-constant-dynamic-langdt')
